@@ -27,7 +27,7 @@ theorem run_cfg' (c : Conn α) (ls : List (Label α)) : (run c ls).cfg = c.cfg :
   | cons l t ih => simp only [run, List.foldl_cons] at ih ⊢; rw [ih, step_cfg]
 
 theorem monRel08_init (cfg : Cfg) (sn : σ) : MonRel08 sn (Mon.init cfg.hasStore cfg.jsonResponse : MonS σ α) (init cfg) := by
-  refine ⟨rfl, ?_, ?_⟩
+  refine ⟨rfl, fun _ => rfl, ?_, ?_⟩
   · intro sid
     simp only [Mon.init, init]
     split <;> simp
@@ -39,19 +39,20 @@ def GroupsOK08 : Conn α → List (List (Label α)) → Prop
   | c, g :: gs => InScopeRun c g ∧ RecFacts (originOfGroup g) c (run c g) ∧ GroupsOK08 (run c g) gs
 
 theorem accepts_groups_from (prov : α → Prov σ) (sn : σ) : ∀ (gs : List (List (Label α))) (c : Conn α) (m : MonS σ α),
-    Inv c → Inv08 c → InvK c → c.cfg.hasStore = true → MonRel08 sn m c → GroupsOK08 c gs →
+    Inv c → Inv08 c → InvK c → InvP c → c.cfg.hasStore = true → MonRel08 sn m c → GroupsOK08 c gs →
     (runV prov m (traceOf sn c gs)).2.v08 = none := by
   intro gs
   induction gs with
-  | nil => intro c m _ _ _ _ _ _; rfl
+  | nil => intro c m _ _ _ _ _ _ _; rfl
   | cons g t ih =>
-    intro c m hw h8 hk hst hm hok
+    intro c m hw h8 hk hp hst hm hok
     obtain ⟨hsc, hf, hrest⟩ := hok
     have hw' := inv_runFrom hw g
     have h8' := inv08_runFrom hw h8 hst g hsc
     have hk' := invK_runFrom hw hk g
-    obtain ⟨v, hm'⟩ := record_ok08 prov hst hw' h8' hk' (grow_run hw g) hf hm
-    have := ih (run c g) _ hw' h8' hk' (by rw [run_cfg']; exact hst) hm' hrest
+    have hp' := invP_runFrom hw hp g
+    obtain ⟨v, hm'⟩ := record_ok08 prov hst hw' h8' hk' hp' (purged_mono_run c g) (grow_run hw g) hf hm
+    have := ih (run c g) _ hw' h8' hk' hp' (by rw [run_cfg']; exact hst) hm' hrest
     simp only [traceOf, runV, foldV] at this ⊢
     simp [Viol.or, v, this]
 
@@ -59,7 +60,7 @@ theorem accepts_groups_from (prov : α → Prov σ) (sn : σ) : ∀ (gs : List (
 theorem monitorC08_accepts_groups (cfg : Cfg) (hst : cfg.hasStore = true) (sn : σ) (prov : α → Prov σ)
     (gs : List (List (Label α))) (hok : GroupsOK08 (init cfg : Conn α) gs) :
     (runV prov (Mon.init cfg.hasStore cfg.jsonResponse) (traceOf sn (init cfg) gs)).2.v08 = none :=
-  accepts_groups_from prov sn gs (init cfg) _ (inv_init cfg) (inv08_init cfg) (invK_init cfg) hst (monRel08_init cfg sn) hok
+  accepts_groups_from prov sn gs (init cfg) _ (inv_init cfg) (inv08_init cfg) (invK_init cfg) (invP_init cfg) hst (monRel08_init cfg sn) hok
 
 /-! ### one record per label -/
 
@@ -143,9 +144,11 @@ theorem step_nostore (prov : α → Prov σ) (m : MonS σ α) (o : Obs σ α) (h
       simp only [foldV]
       exact ⟨c1, by simp [Viol.or, b2, c2]⟩
   obtain ⟨e1, e2⟩ := key o.sent _ h2
-  refine ⟨e1, ?_⟩
-  show (((foldV (appendOne prov) _ o.appends).2.or (foldV (evStep prov) _ o.sent).2).or { v08 := quiesce _ o }).v08 = none
-  simp [Viol.or, a3, e2, quiesce, e1]
+  have hap : ∀ (l : List (σ × Nat × Nat)) (m : MonS σ α), (applyPurges m l).store = m.store := fun l m => (applyPurges_frame l m).2.2.1
+  refine ⟨(hap _ _).trans e1, ?_⟩
+  show ((({ v08 := if m.store then o.opened.findSome? (checkPurged m o) else none } : Viol).or
+    ((foldV (appendOne prov) _ o.appends).2.or (foldV (evStep prov) _ o.sent).2)).or { v08 := quiesce _ o }).v08 = none
+  simp [Viol.or, a3, e2, quiesce, e1, h]
 
 theorem runV_nostore (prov : α → Prov σ) : ∀ (tr : List (Obs σ α)) (m : MonS σ α), m.store = false →
     (runV prov m tr).2.v08 = none := by
